@@ -1538,7 +1538,7 @@ SELFTEST += [
 LEVEL_TEXT += " Also (R7): every framework-generated error on the endpoint path is converted through the endpoint's declared error type before it becomes a response, so its body matches the documented error schema of a custom error type."
 LEVEL_TEXT += " Also (R9): the $ref an operation uses for its error responses names the components.responses entry that holds that error type's schema."
 LEVEL_TEXT += ' Also (R10 = C09.R8, R11 = C08.R1): the documented media type is matched after normalisation, and schema keywords are carried to the keyword of the same meaning.'
-LEVEL_TEXT += " Also (R12): the extension mode (pagination / websocket) documented for a tuple of extractors is None when no member declares one, the declaring member's mode whatever its position when exactly one does, and a panic when two members declare different ones — decided by interpreting each tuple's metadata() over every assignment of modes to its members (the members' own metadata() stubbed). Also (R13): ResultsPage<T> is documented by its schema twin ResultsPageSchema<T> and serialised by its own impl -- the documented properties are the serialised keys with the same field types, and every required property is written on every path; (R5) the same always-serialised clause for the error body."
+LEVEL_TEXT += " Also (R12): the extension mode (pagination / websocket) documented for a tuple of extractors is None when no member declares one, the declaring member's mode whatever its position when exactly one does, and a panic when two members declare different ones — decided by interpreting each tuple's metadata() over every assignment of modes to its members (the members' own metadata() stubbed). Also (R13): ResultsPage<T> is documented by its schema twin ResultsPageSchema<T> and serialised by its own impl -- the documented properties are the serialised keys with the same field types, and every required property is written on every path; (R5) the same always-serialised clause for the error body. Also (R14 = C02.R5b): a parameter type is accepted, hence documented, only when the scalar check justified every alternative of its schema."
 
 
 SELFTEST += [
